@@ -13,15 +13,15 @@ func checkC08(p *Prog, r *Report) {
 	r.Rule("R2", "the duplicate scan that decides the insertion and the insertion share one critical section; the scan is present")
 	absenceThenInsert(p, ls, r, "R2", F("SubscriptionManager.subscriptionEntries"), true, 1)
 	r.Rule("R3", "RemoveSubscription keeps an entry ⇔ ¬(client device ∧ entity ∧ feature ∧ server feature equal); the per-entity removal keeps ⇔ ¬(client device ∧ client entity equal)")
-	r.Rule("R7", "every read-modify-write of the subscription list (rebuild on removal, append on insertion) reads and stores inside one critical section")
-	rebuildAtomic(p, ls, r, "R7", F("SubscriptionManager.subscriptionEntries"), 3)
+	r.Rule("R9", "every read-modify-write of the subscription list (rebuild on removal, append on insertion) reads and stores inside one critical section")
+	rebuildAtomic(p, ls, r, "R9", F("SubscriptionManager.subscriptionEntries"), 3)
 	applyRetain(p, r, "R3", "spine", "SubscriptionManager", "RemoveSubscription", retainSpec{Field: F("SubscriptionManager.subscriptionEntries"),
 		Required: map[string]string{"client.device": "ClientFeature.Address().Device", "client.entity": "ClientFeature.Address().Entity", "client.feature": "ClientFeature.Address().Feature", "server.feature": "=ServerFeature"}})
 	applyRetain(p, r, "R3", "spine", "SubscriptionManager", "RemoveSubscriptionsForEntity", retainSpec{Field: F("SubscriptionManager.subscriptionEntries"),
 		Required: map[string]string{"client.device": "ClientFeature.Device().Ski()|ClientFeature.Address().Device", "client.entity": "ClientFeature.Address().Entity"}})
 	r.Rule("R4", "RemoveSubscription replaces the registry only if an entry was removed and reports an error otherwise")
 	removeMissRule(p, ls, r, "R4", subMgr)
-	r.Rule("R5", "NotifySubscribers sends exactly one Notify per entry of the per-feature query of its feature address, through the sender of the entry's client device, with (entry server address, entry client address, the given command)")
+	r.Rule("R5", "NotifySubscribers sends exactly one Notify per entry of the per-feature query of its feature address, through the sender of the entry's client device, with (entry server address, entry client address, the given command); the fan-out loop is left only when the entries are exhausted (a failed send does not keep the remaining subscribers from being notified)")
 	fanoutRule(p, r, "R5")
 	r.Rule("R6", "SetData, UpdateData and the remote write executor notify subscribers exactly once when the store succeeded and never when it failed")
 	notifyCountRule(p, r, "R6")
